@@ -187,9 +187,43 @@ def run(m, rep, tier):
                 if step and isinstance(s2.o[0], str):
                     steps[s2.o[0]] = (base, step)
 
+        def _is_count_value(v):
+            vi = f.get(v) if isinstance(v, str) else None
+            return vi is not None and vi.op == 'load' and resolve_addr(f, vi.o[0]).root == '$0' and vec_field(resolve_addr(f, vi.o[0])) == 'count'
+
+        def _null_known(ps, field):
+            for (op, x, y) in ps.known:
+                xi = f.get(x) if isinstance(x, str) else None
+                if op == 'eq' and y == 'null' and xi is not None and xi.op == 'load' and vec_field(resolve_addr(f, xi.o[0])) == field:
+                    return True
+            return False
+
         def transfer10(ins, st, ps):
             if ins.op == 'call' and ins.x.get('noreturn'):
                 return None
+            if ins.op == 'store' and resolve_addr(f, ins.o[1]).root == '$0' and vec_field(resolve_addr(f, ins.o[1])) == 'count' \
+                    and isinstance(ins.o[0], str) and ins.o[0] not in steps and strip_bitcasts(f, ins.o[0]) == '$1':
+                # the count is set to the request directly: only where no element has to be constructed or destroyed
+                grows = shrinks = equal = False
+                for (op, x, y) in ps.known:
+                    if op in ('ult',) and _is_count_value(x) and y == '$1':
+                        grows = True
+                    if op in ('ult',) and x == '$1' and _is_count_value(y):
+                        shrinks = True
+                    if op == 'eq' and ((_is_count_value(x) and y == '$1') or (x == '$1' and _is_count_value(y))):
+                        equal = True
+                le = any(op == 'ule' and _is_count_value(x) and y == '$1' for (op, x, y) in ps.known)
+                ge = any(op == 'ule' and x == '$1' and _is_count_value(y) for (op, x, y) in ps.known)
+                if le and ge:
+                    equal = True
+                may_grow = not equal and not shrinks and not ge
+                may_shrink = not equal and not grows and not le
+                if may_grow and not _null_known(ps, 'elem.xtor.cons'):
+                    bad10.append('the count is set to the request at %s on a path on which elements may come into scope while a constructor may be '
+                                 'registered: they are never constructed' % ins.loc())
+                if may_shrink and not _null_known(ps, 'elem.xtor.dest'):
+                    bad10.append('the count is set to the request at %s on a path on which elements may go out of scope while a destructor may be '
+                                 'registered (only the constructor was tested): they are never destroyed' % ins.loc())
             if ins.ref in steps:
                 base, step = steps[ins.ref]
                 cur = ps.lookup(_k(base)) if isinstance(base, str) else base
